@@ -49,6 +49,16 @@ def run(ctx, log):
         "stel a = [1, 2, 3]; a[0] = a[1] = 7; a", "stel a = [0]; a[a[0]] = 1; a[a[0] - 1]",
     ]
     progs += directed
+    # an array stored into itself or into one of its own elements is still the same array (read back through the
+    # cycle, never printed: printing a cyclic array is the recorded finding D26)
+    progs += [
+        "stel a = [1, 2, 3]; a[0] = a; a[1] = 20; stel t = a[0]; [t[1], lengte(t)]",
+        "stel a = [1, 2, 3]; stel b = [0, a]; a[0] = a; a[1] = 20; stel t = a[0]; t[2] = 30; stel u = b[1]; [a[1], a[2], u[2], t[1]]",
+        "stel a = [0]; stel b = [a]; a[0] = b; stel c = a[0]; stel d = c[0]; d[0] = 5; a[0]",
+        "stel a = [1]; functie zelf(x) { x[0] = x; x } stel r = zelf(a); stel k = r[0]; k[0] = 9; a[0]",
+        "stel a = [1, 2]; a[1] = a; stel p = a[1]; stel q = p[1]; q[0] = 7; [a[0], p[0], lengte(q)]",
+        "stel a = [1, 2]; a[-1] = a; a[0] = 3; stel p = a[1]; p[0]",
+    ]
     # random operation sequences
     for _ in range(300 if ctx.quick else 10000):
         n = rng.randint(0, 5)
